@@ -7,6 +7,16 @@ ALL = ["C%02d" % i for i in range(1, 21)]
 
 # property -> (category, technique, text, note, design_ref)
 CHECKS = {
+ "C11": ("exploration",
+   "exhaustive run of an enumerated finite catalogue of designs x column images x the full parameter grid, against the statement's own perturbation / duality-gap formulation and exact coordinate minimisers",
+   "24 lattice designs (full and fractional factorials, n in {4,6,9,12}, p in {1,2,3}, full column rank of [X | 1] verified by own elimination) x column offsets {0, 5, -100} x scales {1e-3, 1, 1e3}, constant- and duplicated-column variants (judged only with a strictly convex penalty), 1..3 targets, f32 and f64 x OLS (intercept on / off), ElasticNet and MultiTaskElasticNet over penalty {0,.01,.1,1,10} x l1_ratio {0,.5,1} x intercept x tolerance: no perturbation of any coefficient (ladder 1e-6..1 and the exact coordinate / block soft-threshold minimiser) or of the intercept lowers the documented objective by more than gap/n; gap >= 0; global check against the harness's own optimum; coefficients under the l1 threshold exactly 0; predict == Xw + b; OLS residual orthogonal to every column and to the constant column.",
+   "A bounded claim over the catalogue x grid. Runs that end on the iteration cap are counted, not judged (fits without an l1 part never close the solver's gap on noisy targets, so ridge / unpenalised fits are run but effectively never judged). f32 gap comparisons carry slack scaled by the operand magnitude.",
+   "DESIGN.md 4/C11"),
+ "C19": ("exploration",
+   "exhaustive over the type registry: a run-time scanner lists every serde derive site in the repository and fails the run if one is unregistered; every registered type x instances x lossless formats is round-tripped and compared behaviourally",
+   "95 derive / impl sites found by scanning /repo at run time (81 registered directly, 5 through their containing public type, 1 private and unreachable, 8 in dead source whose deadness is verified) - an unregistered site is a machinery error, so a newly serialisable type cannot be silently uncovered. 83 registry entries x fitted instances in f32 and f64 where generic, every parameter set at default / non-default valid / invalid points, every enum variant, OPTICS results, kernels, vectorisers with regex and function tokenisers x {bincode, MessagePack compact and named, CBOR} (+ JSON for float-free types): restored == original where PartialEq is reflexive, identical Debug, every public accessor and every prediction / transform on a query pool bit-identical, same check() verdict, refit bit-identical, continuing fit_with from the restored state identical, ser(de(ser(x))) == ser(x) (skipped with a stated reason for map-holding types), documented tokenizer guard.",
+   "Types holding a HashMap are compared behaviourally, never by bytes. Models named in the quantifier that have no serde derive (Platt, DiffusionMap, hierarchical, t-SNE) offer no serialisation and are outside the property.",
+   "DESIGN.md 4/C19"),
  "C16": ("exploration",
    "bounded exhaustive enumeration of every small matrix over a value alphabet x 16 scaler / whitener configurations, every (train, unseen) pair of a pool with all row permutations and selections compared bitwise",
    "Every n x p matrix (n 1..4, p 1..3, n*p <= 8/9) over {0, 1, -2, 1001, 1e-3} (constant, all-zero, offset and badly scaled columns, all-zero rows), a tiny-spread family (1e-12, 1e-18, 2^-52), f32 and f64, through standard / no-mean / no-std / neither, min-max with four ranges + a flipped one, max-abs, norm l1 / l2 / max and PCA / ZCA / Cholesky whitening: the post-conditions of the statement on the training matrix, the fitted transform equal to the affine map built from offsets()/scales() resp. transformation_matrix()/mean(), and for every (train A, unseen B) pair transform(B) row i == transform(B[i..i+1]) and commutation with EVERY permutation and EVERY subset of B's rows, bit for bit; whitening on a 702-member full-rank catalogue incl. global scales 1e-10 and 1e9; 384 dataset forms (targets, weights, names pass through unchanged); empty training data and flipped ranges are errors.",
